@@ -17,6 +17,7 @@
 #include <vector>
 #include <signal.h>
 #include <sys/mman.h>
+#include <sys/prctl.h>
 #include <sys/time.h>
 #include <sys/wait.h>
 #include <unistd.h>
@@ -307,6 +308,7 @@ inline PoolOutcome RunPool(int jobs,
         std::memset(&blocks[i], 0, sizeof(WorkerBlock));
         pid_t p = fork();
         if (p == 0) {
+            prctl(PR_SET_PDEATHSIG, SIGKILL); // a worker never outlives its engine
             Result local;
             local.tier = merged.tier, local.seed = merged.seed;
             detail::g_hb_src = &local, detail::g_hb_dst = &blocks[i];
